@@ -56,6 +56,20 @@ package crypto
 //@ callrule c33_script_verdict in verifyN3Scripts
 //@   callee unwrap.Bool
 //@   defines res0 && err == nil ==> scriptRunTrue()
+// The witness is run as ONE script, invocation part first: "the run answered true" says
+// something about the verification script only if the invocation part cannot end or redirect
+// the run itself - it may only push data (as signatures do). An invocation script `PUSHT RET`
+// would otherwise halt the run with true before the verification script is reached, for any
+// account whose verification script is known.
+//@ ghost pred invocationScriptOnlyPushes() bool
+//@ callrule c33_invocation_script_checked in verifyN3Scripts
+//@   optional
+//@   callee crypto.checkInvocationScript
+//@   pureeffect
+//@   defines result == nil ==> invocationScriptOnlyPushes()
+//@ callrule c33_witness_run_only_with_a_push_only_invocation_script in verifyN3Scripts
+//@   callee transaction.NewFakeTX
+//@   requires [invocation_script_cannot_end_the_run] invocationScriptOnlyPushes()
 //@ func verifyN3Scripts
 //@   ensures [nil_only_if_script_answered_true] err == nil ==> scriptRunTrue()
 //@   defines err == nil ==> scriptRunTrue()
